@@ -419,7 +419,7 @@ func plans() map[string]*propertyPlan {
 			assumptions: []string{"Go randomises every range over a map; repetition samples iteration orders (the rarest alternative order of a 2-entry map has p=1/8 per iteration), it does not enumerate them", "two texts with the same (name, revision) are not generated here: their rejection is C13's subject and is order-dependent by construction"},
 			minObserved: map[string]int64{"executions": 50000, "error_outcomes": 20},
 			nontrivial:  "nontrivial", evaluations: "executions",
-			quick: []spec{{family: "conflict", cases: 345, cpuS: 900, asKB: 8 << 20, wallS: 1200}, {family: "generated", cases: 320, cpuS: 900, asKB: 8 << 20, wallS: 1200}, {family: "cli", cases: 48, cpuS: 900, wallS: 1200}},
+			quick: []spec{{family: "conflict", cases: 360, cpuS: 900, asKB: 8 << 20, wallS: 1200}, {family: "generated", cases: 320, cpuS: 900, asKB: 8 << 20, wallS: 1200}, {family: "cli", cases: 48, cpuS: 900, wallS: 1200}},
 			// (a thorough case is 128 x 24 executions of one set, a third of them with extra processing runs: the budget per case is raised accordingly)
 			thorough: []spec{{family: "conflict", cases: 10000, params: map[string]string{"case_cpu_s": "600"}, cpuS: 7200, asKB: 8 << 20, wallS: 9000}, {family: "generated", cases: 10000, params: map[string]string{"case_cpu_s": "600"}, cpuS: 7200, asKB: 8 << 20, wallS: 9000}, {family: "cli", cases: 400, cpuS: 7200, wallS: 9000}},
 		},
